@@ -118,8 +118,8 @@ def configs(tier):
         cs.append(dict(filter=True, clock=12, fs_only=True, mode="full", addrs=[1, 0x55], gaps=1))
         cs.append(dict(filter=True, clock=60, fs_only=False, mode="full-rep", addrs=[0x2A], gaps=1, starts=[0], rep=5, addr2="same"))
         cs.append(dict(filter=False, clock=60, fs_only=False, mode="full-rep", addrs=[0], gaps=0, starts=[0], rep=4))
-        cs.append(dict(filter=True, clock=60, fs_only=False, mode="rep-full", addrs=[0x2A], gaps=0, starts=[0], rep=8, addr2="same", third="reduced"))
-        cs.append(dict(filter=False, clock=12, fs_only=True, mode="rep-full", addrs=[0], gaps=0, starts=[0], rep=8, third="reduced"))
+        cs.append(dict(filter=True, clock=60, fs_only=False, mode="rep-full", addrs=[0x2A], gaps=0, starts=[0], rep=6, addr2="same", third="reduced"))
+        cs.append(dict(filter=False, clock=12, fs_only=True, mode="rep-full", addrs=[0], gaps=0, starts=[0], rep=6, third="reduced"))
     else:
         for i in range(16):          # every 7-bit device address, one packet over the full alphabet
             cs.append(dict(filter=True, clock=60 if i % 2 == 0 else 12, fs_only=(i % 2 == 1), mode="full",
